@@ -217,7 +217,7 @@ pub_step!(c04_shared_offer_empty_message, Kind::SharedOffer, 5, 160, 0);
 pub_step!(c04_shared_offer_fills_term_exactly, Kind::SharedOffer, 0, TL as i32 - 64, 32);
 // @verif tier=thorough unwind=4 unwindset=term_untouched:12,payload_in_log:66 fs=6000
 pub_step!(c04_shared_offer_tail_already_beyond_term, Kind::SharedOffer, 1, TL as i32 + 32, 17);
-// @verif tier=thorough unwind=4 unwindset=term_untouched:12,payload_in_log:66 fs=6000
+// @verif tier=quick unwind=4 unwindset=term_untouched:12,payload_in_log:66 fs=6000
 pub_step!(c04_exclusive_claim_over_mtu_payload, Kind::ExclClaim, 6, 0, 40);
 // @verif tier=thorough unwind=4 unwindset=term_untouched:12,payload_in_log:66 fs=6000
 pub_step!(c04_shared_claim_trips_term_end, Kind::SharedClaim, 2, TL as i32 - 32, 32);
